@@ -138,7 +138,8 @@ class SimH(Simulator):
     # ------------------------------------------------------------------ generation
     def gen_plan(self, rng: random.Random, profile: str, tier: str) -> dict:
         n = rng.randint(5, 60 if tier == "thorough" else 40)
-        cfg = {"only_modified": rng.random() < 0.8,
+        self._revert = rng.random() < 0.25     # commanded values may go back to the value they had before the last change
+        cfg = {"revert": self._revert, "only_modified": rng.random() < 0.8,
                "initially_connected": rng.random() < 0.5,
                "reconnect_timeout": rng.choice([10, 10, 10, 2, 30]),
                "error_timeout": rng.choice([18000, 18000, 600, 60])}
@@ -199,13 +200,18 @@ class SimH(Simulator):
     def _gen_cycle(self, rng, fail) -> dict:
         changed = [r for r in WRITE_REGS if rng.random() < 0.45]
         op = {"op": "cycle", "changed": changed, "fail_after": None, "pend_fail": int(rng.random() < 0.15 and bool(fail))}
+        if getattr(self, "_revert", False):
+            op["revert"] = [r for r in changed if rng.random() < 0.5]
         if fail:
             op["fail_after"] = rng.randint(0, len(WRITE_REGS) - 1)
         return op
 
     def _gen_write(self, rng, fail) -> dict:
-        return {"op": "write", "r": rng.choice(WRITE_REGS), "new": int(rng.random() < 0.8), "fail": int(bool(fail)),
-                "pend_fail": int(rng.random() < 0.1 and bool(fail))}
+        op = {"op": "write", "r": rng.choice(WRITE_REGS), "new": int(rng.random() < 0.8), "fail": int(bool(fail)),
+              "pend_fail": int(rng.random() < 0.1 and bool(fail))}
+        if getattr(self, "_revert", False):
+            op["revert"] = [op["r"]] if rng.random() < 0.5 else []
+        return op
 
     def shrink(self, plan: dict) -> Iterator[dict]:
         ops = plan["ops"]
@@ -275,6 +281,7 @@ class SimH(Simulator):
         failed_attempts = 0             # failed reconnect attempts since entering Reconnect
         last_good: dict[str, Any] = {}
         commanded: dict[str, int] = {}  # latest commanded value per output register
+        before_last: dict[str, int] = {}   # the value each register had before its last change (revert mode)
         counter = 0
         max_written: dict[str, Any] = {}
         buffered_latest: dict[str, Any] = {}
@@ -361,17 +368,25 @@ class SimH(Simulator):
                         res.probe("masked_read_in_" + pre.name)
 
             elif o in ("write", "cycle"):
+                def change(n):
+                    nonlocal counter
+                    if n in op.get("revert", []) and n in before_last:
+                        commanded[n], before_last[n] = before_last[n], commanded[n]     # back to the previous value
+                        res.probe("commanded_value_reverted")
+                        return
+                    counter += 1
+                    if n in commanded:
+                        before_last[n] = commanded[n]
+                    commanded[n] = counter
                 if o == "write":
                     if op["new"] or op["r"] not in commanded:
-                        counter += 1
-                        commanded[op["r"]] = counter
+                        change(op["r"])
                     names = [op["r"]]
                     fail_after = 0 if op["fail"] else None
                 else:
                     for n in WRITE_REGS:
                         if n in op["changed"] or n not in commanded:
-                            counter += 1
-                            commanded[n] = counter
+                            change(n)
                     names = list(WRITE_REGS)
                     fail_after = op["fail_after"]
                 # W3 carries ints, the others floats (the filter treats the two differently)
@@ -419,7 +434,7 @@ class SimH(Simulator):
                         if n in buffered_latest and v != buffered_latest[n]:
                             vio("C24", "C24.flushed_value_not_latest_buffered", n, step,
                                 f"buffered value {n}={v} flushed although {n}={buffered_latest[n]} was buffered later")
-                    if n in max_written and v < max_written[n]:
+                    if n in max_written and v < max_written[n] and not cfg.get("revert"):
                         vio("C24", "C24.stale_value_written_after_newer", n, step,
                             f"device received {n}={v} after {n}={max_written[n]} (latest commanded {commanded.get(n)})")
                     max_written[n] = max(v, max_written.get(n, v))
